@@ -216,6 +216,13 @@ impl HalfConnection {
 
             //println!("dt: {}s, rtt: {:?}s, rate: {}B/s, new: {}B, max: {}B, val: {}B",
             //       delta_time, rtt_s, send_rate, new_bytes, alloc_max, self.flush_alloc);
+
+            if new_bytes == 0 {
+                // Less than a byte has been earned since the allocation was last filled. Keep
+                // measuring from that point, otherwise a low send rate stepped at short intervals
+                // (e.g. the minimum rate of 23 B/s at 50 steps per second) never earns anything.
+                return;
+            }
         }
         self.time_last_flushed = Some(now);
     }
